@@ -1106,6 +1106,6 @@ def replay(payload):
             except Exception as e:
                 bad.append({"layout": "5 + 4 bits in one octet", "observed": "raises %s" % type(e).__name__, "expected": "ProtocolError"})
         return {"confirmed": bool(bad), "observed": bad[:4] or "as specified", "expected": "fixed value checked / encoded, spare bits zero, overflow refused"}
-    if what.split(".")[0] in ("field", "env", "seq"):
+    if isinstance(what, str) and what.split(".")[0] in ("field", "env", "seq"):
         return replay_composition(cd)
     return {"confirmed": False, "error": "no native replay for %r" % what}
